@@ -92,9 +92,8 @@ class Bench:
 
 def make_request(t, i):
     from gnpy.topology.request import PathRequest
-    spacing = t['pcm'] * 12.5e9
-    r = PathRequest(request_id=f'r{i}', source='x', destination='y', trx_type='t', trx_mode='m', spacing=spacing,
-                    bit_rate=100e9, path_bandwidth=t['nbWl'] * 100e9,
+    r = PathRequest(request_id=f'r{i}', source='x', destination='y', trx_type='t', trx_mode='m',
+                    spacing=t['spacing'] * 1e6, bit_rate=t['rate'] * 1e6, path_bandwidth=t['bw'] * 1e6,
                     effective_freq_slot=[{'N': None if s['n'] == NONE else s['n'],
                                           'M': None if s['m'] == NONE else s['m']} for s in t['slots']])
     if t['pre']:
@@ -110,7 +109,8 @@ def occupied(o):
 
 def tdesc(t):
     sl = ''.join('(%s,%s)' % ('-' if s['n'] == NONE else s['n'], '-' if s['m'] == NONE else s['m']) for s in t['slots'])
-    return f"path={''.join(map(str, sorted(t['path'])))}|slots={sl}|nbWl={t['nbWl']}|pcm={t['pcm']}|pre={int(t['pre'])}"
+    return (f"path={''.join(map(str, sorted(t['path'])))}|slots={sl}|bw={t['bw'] // 1000}G/{t['rate'] // 1000}G"
+            f"|sp={t['spacing'] / 1000:g}GHz|pre={int(t['pre'])}")
 
 
 def replay_history(bench, js, chk):
@@ -178,7 +178,6 @@ def record_planning(name, net, eq, data, chk):
     """run the real planning() and record one trace: one event per request, observed around the real
     pth_assign_spectrum call (inputs captured before the call, results and bitmaps after it)"""
     import gnpy.tools.worker_utils as wu
-    from gnpy.topology.request import compute_spectrum_slot_vs_bandwidth
     from gnpy.topology.spectrum_assignment import build_path_oms_id_list, BitmapValue
     orig = wu.pth_assign_spectrum
     box = {}
@@ -195,11 +194,11 @@ def record_planning(name, net, eq, data, chk):
         evs = []
         for pth, rq, rpth in zip(pths, rqs, rpths):
             pre = hasattr(rq, 'blocking_reason')
-            ev = dict(id=str(rq.request_id), pre=pre, path=[], nbWl=0, pcm=1, slots=[])
+            ev = dict(id=str(rq.request_id), pre=pre, path=[], bw=0, rate=1, spacing=12500, slots=[])
             if not pre:
-                nb_wl, _ = compute_spectrum_slot_vs_bandwidth(rq.path_bandwidth, rq.spacing, rq.bit_rate)
-                _, pcm = compute_spectrum_slot_vs_bandwidth(rq.bit_rate, rq.spacing, rq.bit_rate)
-                ev.update(path=sorted(build_path_oms_id_list(pth + rpth)), nbWl=nb_wl, pcm=pcm,
+                # raw request values in Mbit/s and MHz: the spec derives channel count and slots per channel itself
+                ev.update(path=sorted(build_path_oms_id_list(pth + rpth)), bw=int(round(rq.path_bandwidth / 1e6)),
+                          rate=int(round(rq.bit_rate / 1e6)), spacing=int(round(rq.spacing / 1e6)),
                           slots=[dict(n=NONE if n is None else n, m=NONE if m is None else m)
                                  for n, m in zip(rq.N, rq.M)])
             evs.append(ev)
@@ -408,7 +407,7 @@ def judge_traces(jobs, chk):
                 ok += 1
             if t is trs[0] and len(chk.samples) < 4:
                 chk.sample(dict(kind='B3 trace of real assignment judged by Trace_SpectrumAssign', name=t['name'],
-                                first_events=[{k: e[k] for k in ('id', 'path', 'slots', 'nbWl', 'pcm', 'st', 'nm')}
+                                first_events=[{k: e[k] for k in ('id', 'path', 'slots', 'bw', 'rate', 'spacing', 'st', 'nm')}
                                               for e in t['ev'][:3]]))
     return ok
 
